@@ -50,7 +50,7 @@ Technique (BUILDER-GUIDE): specs/ScraperController
      ScraperControllerTrace (is it a behaviour of the implementation-shaped model? -> model drift otherwise).
   4. Config.Validate: the table printed by ScraperConfigGen against the real Validate.
 """
-import json, os, re
+import json, os
 import vlib
 
 SPEC = "ScraperController"
@@ -217,6 +217,8 @@ KNOWN = {
 
 def run(c):
     q = c.quick()
+    if c.replay:
+        os.environ["VERIF_NO_EVIDENCE"] = "1"      # a replay runs one script: it is not the tier's evidence
     # ------------------------------------------------------------------ 1. design
     designs = []
     if not c.replay:
@@ -225,7 +227,7 @@ def run(c):
         designs = [("life", mc_cfg("OutcomesSmall", [1, 2], 1, 1, 14, True, T)),
                    ("scrape", mc_cfg("OutcomesSmall", [1], 1, 2, 15, False, NF))] if q else \
                   [("life", mc_cfg("OutcomesSmall", [1, 2], 1, 1, 17, True, [])),
-                   ("scrape1", mc_cfg("OutcomesMid", [1], 2, 3, 18, False, NF)),
+                   ("scrape1", mc_cfg("OutcomesMid", [1], 2, 3, 17, False, NF)),
                    ("scrape2", mc_cfg("OutcomesSmall", [2], 1, 2, 21, False, NF)),
                    ("scrape3", mc_cfg("OutcomesSmall", [3], 1, 1, 20, False, ["NoLifecycleFailure"]))]
     from concurrent.futures import ThreadPoolExecutor
@@ -236,9 +238,16 @@ def run(c):
 
         def design(name, cfg):
             with sem:
+                # coverage (every action of the model taken, else INCONCLUSIVE) on the runs that can afford it
+                cov = q or name == "life"
                 return c.tlc_must_pass(SPEC, "ScraperControllerMC", cfg_text=cfg, timeout=c.pick(120, 1200), label="design_" + name,
-                                       heap="6g", workers=max(2, vlib.NCPU // 2 - 2))
+                                       heap="6g", workers=max(2, vlib.NCPU // 2 - 2), coverage=cov,
+                                       vacuous_ok=() if "WithSecond = TRUE" in cfg else ("ASShut2", "ASdRet2"))
         dfuts = [(name, ex.submit(design, name, cfg)) for name, cfg in designs]
+        # the model of the code AS IT IS (AllowPanic: the second Shutdown panics) must violate the statement: the open finding
+        # E01-second-shutdown-panics is visible at model level too, and ShutdownSafe is not vacuous
+        asis = ex.submit(c.tlc, SPEC, "ScraperControllerMC", workers=2, timeout=120, count=False, label="design_code_as_is",
+                         cfg_text=mc_cfg("OutcomesOne", [1], 0, 1, 8, True, T).replace("AllowPanic = FALSE", "AllowPanic = TRUE"))
 
     # ------------------------------------------------------------------ 2. scripts
     if c.replay:
@@ -251,7 +260,7 @@ def run(c):
         plans = [  # (label, generator configuration, number of random behaviours or None = exhaustive)
             ("tiny", gen_cfg("OutcomesSmall", [1], [False], [False], 1, 2, False, False), None),
             ("life", gen_cfg("OutcomesOne", [1, 2], [False], [True, False], 0, 1, True, True), None),
-            ("sim", gen_cfg("OutcomesFull", [1, 2, 3], [True, False], [True, False], 3, 3, False, True), c.pick(2500, 30000)),
+            ("sim", gen_cfg("OutcomesFull", [1, 2, 3], [True, False], [True, False], 3, 3, False, True), c.pick(1500, 30000)),
             ("sim2", gen_cfg("OutcomesMid", [1, 2], [True, False], [True, False], 2, 2, True, True), c.pick(600, 6000)),
         ]
         if not q:
@@ -276,6 +285,11 @@ def run(c):
     for name, f in dfuts:       # the real-code runs below are not disturbed by the design runs
         r = f.result()
         c.log("design %s: %d states, %d distinct, depth %d, %.1fs" % (name, r.generated, r.distinct, r.depth, r.wall))
+    if not c.replay:
+        r = asis.result()
+        if r.error != ("invariant", "StatementHolds"):
+            raise vlib.Inconclusive("the model with the panic of the second Shutdown was expected to violate StatementHolds: %s" % (r.error,))
+        c.extra["model_of_code_as_is"] = "violates StatementHolds (ShutdownSafe) as expected: second Shutdown panics"
     ex.shutdown()
 
     # ------------------------------------------------------------------ 3. run + judge
